@@ -1186,7 +1186,8 @@ def cast_use_cases():
         uses = ["rx(m) q[0];", "rz(m * 2) q[1];", "pow(m) @ x q[1];" if idx else "gphase(m);"]
         if idx:
             uses += ["h q[m];", "cx q[2], q[m];", "c[m] = measure q[m];", "reset q[m];", "barrier q[m];", "for int i in [0:m] { x q[i]; }",
-                     "switch (m) { case 0 { x q[0]; } case 1 { y q[0]; } default { z q[0]; } }"]
+                     "switch (m) { case 0 { x q[0]; } case 1 { y q[0]; } default { z q[0]; } }",
+                     "c[0] = measure q[1];\nif (c == m) { x q[0]; } else { y q[0]; }", "if (c[1] == m) { z q[1]; }"]
         else:
             uses += ["if (m == 1) { x q[0]; } else { y q[0]; }"]
         out.append(H3 + pre + "%s m = %s;\n" % (ty, e) + "\n".join(uses) + "\n")
